@@ -1599,9 +1599,9 @@ func (e *env) corpus() []func() c.Case {
 // ---- state carried between requests AND real time: the same signed triple, presented while fresh and
 // again after its five minutes. The code reads time.Now() and the triple must stay byte-identical, so
 // this dimension cannot be realised by re-signing with a shifted timestamp: the triples are signed
-// 291 s in the past at start-up, presented at once (age <= 297 s is checked on the driver's clock after
+// 294 s in the past at start-up, presented at once (age <= 298 s is checked on the driver's clock after
 // the request, otherwise the item is re-signed and presented again), and presented again when the run
-// is otherwise finished and their age is >= 304 s on the driver's clock before the request.
+// is otherwise finished and their age is >= 303 s on the driver's clock before the request.
 
 type agingItem struct {
 	h        *history
@@ -1612,7 +1612,7 @@ type agingItem struct {
 	sess     asess
 }
 
-const agingAge, agingFresh, agingStale = 291, 297, 304
+const agingAge, agingFresh, agingStale = 294, 298, 303
 
 func (e *env) agingStart() []*agingItem {
 	var items []*agingItem
